@@ -275,6 +275,9 @@ def run_pairs(r, iface):
                 for order in SV.merge_orders(4, 4):
                     random.seed(12345)
                     check(SV.run_wsgi_pair(app, [SV.to_environ(reqs[i]), SV.to_environ(reqs[j])], order), f"order {order}")
+                for order in ((0, 1, 0, 1, 0, 1), (1, 0, 1, 0, 1, 0), (0, 0, 0, 0, 1, 1, 1, 1), (1, 1, 1, 1, 0, 0, 0, 0)):
+                    random.seed(12345)
+                    check(SV.run_wsgi_pair(app, [SV.to_environ(reqs[i]), SV.to_environ(reqs[j])], order, call_first=True), f"both called first, then order {order}")
             else:
                 def run(prefix):
                     random.seed(12345)
